@@ -110,3 +110,63 @@ pub fn mod_strategy(small_maxc: usize) -> BoxedStrategy<Mod> {
 pub fn dspec_strategy(maxc: usize, maxmods: usize) -> BoxedStrategy<DSpec> {
     (src_strategy(maxc, true), prop::collection::vec(mod_strategy(4), 0..=maxmods)).prop_map(|(src, mods)| DSpec { src, mods }).boxed()
 }
+
+// ---------------------------------------------------------------------- isotopy move histories (C02, C04, C06)
+
+/// PD-level moves that keep the oriented link type
+#[derive(Clone, Debug, Serialize, Deserialize, PartialEq)]
+pub enum PMove { Kink(u16, u8), Renumber(u32), Reorder(u32), ReverseAll }
+
+#[derive(Clone, Debug, Serialize, Deserialize, PartialEq)]
+pub struct IsoSpec { pub base: DSpec, pub bmoves: Vec<BMove>, pub pmoves: Vec<PMove> }
+
+fn braid_word_of(s: &Src) -> Option<(usize, Vec<i32>)> {
+    match s {
+        Src::Braid(n, w) => { let n = (*n as usize).clamp(2, 8); let mut w: Vec<i32> = w.iter().filter(|x| **x != 0).map(|x| { let k = (x.unsigned_abs() as usize - 1) % (n - 1) + 1; if *x > 0 { k as i32 } else { -(k as i32) } }).collect();
+            let mut t = vec![false; n]; for x in &w { let k = x.unsigned_abs() as usize - 1; t[k] = true; t[k + 1] = true; }
+            for s in 0..n { if !t[s] { let g = if s == n - 1 { s } else { s + 1 }; w.push(g as i32); t[g - 1] = true; t[g] = true; } }
+            Some((n, w)) }
+        Src::Torus(p, q) => { let (p, q) = ((*p as usize).clamp(2, 7), (*q as usize).clamp(1, 9)); Some((p, torus_word(p, q))) }
+        _ => None,
+    }
+}
+
+pub struct IsoBuilt { pub base: Dg, pub moved: Dg, pub braid_moves: usize, pub r23_moves: usize, pub kinks: usize }
+
+pub fn build_iso(spec: &IsoSpec) -> Result<IsoBuilt, String> {
+    let base = build(&spec.base)?;
+    let mut moved = base.clone();
+    let (mut nb, mut r23) = (0, 0);
+    if spec.base.mods.is_empty() {
+        if let Some((n, w)) = braid_word_of(&spec.base.src) {
+            let (mut n, mut w) = (n, w);
+            for m in &spec.bmoves { if let Some((n2, w2)) = apply_bmove(n, &w, m) { n = n2; w = w2; nb += 1; if matches!(m, BMove::BraidRel(_) | BMove::InsertPair(..) | BMove::RemovePair(_) | BMove::Stabilize(_)) { r23 += 1; } } }
+            if nb > 0 { moved = braid_closure(n, &w).ok_or("bad braid after moves")?; }
+        }
+    }
+    let mut kinks = 0;
+    let pure = moved.x.iter().all(|c| c.0 == CT::X);
+    for m in &spec.pmoves {
+        moved = match m {
+            PMove::Kink(i, k) => if pure { match pick_label(&moved, *i) { Some(l) => { kinks += 1; moved.kink(l, *k)? } None => moved } } else { moved },
+            PMove::Renumber(s) => moved.renumber_seeded(*s as u64),
+            PMove::Reorder(s) => moved.reorder_seeded(*s as u64),
+            PMove::ReverseAll => if pure { moved.reverse_all() } else { moved },
+        };
+    }
+    Ok(IsoBuilt { base, moved, braid_moves: nb, r23_moves: r23, kinks })
+}
+
+pub fn iso_strategy(maxc: usize, maxmoves: usize) -> BoxedStrategy<IsoSpec> {
+    let bm = prop_oneof![
+        2 => any::<u16>().prop_map(BMove::FarCommute), 3 => any::<u16>().prop_map(BMove::BraidRel),
+        3 => (any::<u16>(), any::<i8>()).prop_map(|(p, g)| BMove::InsertPair(p, g)), 1 => any::<u16>().prop_map(BMove::RemovePair),
+        2 => any::<i8>().prop_map(BMove::Conjugate), 2 => any::<bool>().prop_map(BMove::Stabilize)];
+    let pm = prop_oneof![3 => (any::<u16>(), 0u8..4).prop_map(|(i, k)| PMove::Kink(i, k)), 2 => any::<u32>().prop_map(PMove::Renumber), 2 => any::<u32>().prop_map(PMove::Reorder), 1 => Just(PMove::ReverseAll)];
+    // bases: half of them plain braid closures (so that braid moves apply), the rest arbitrary specs
+    let braid_base = src_strategy(maxc, false).prop_filter_map("braid source", |s| if matches!(s, Src::Braid(..) | Src::Torus(..)) { Some(DSpec { src: s, mods: vec![] }) } else { None });
+    // resolved crossings (a crossingless unknot / unlink) listed before the real crossings of a split component
+    let resolved_first = ((0u8..2), src_strategy(maxc, false)).prop_map(|(k, s)| DSpec { src: Src::Corner(if k == 0 { 1 } else { 6 }), mods: vec![Mod::Union(s)] });
+    let base = prop_oneof![5 => braid_base, 5 => dspec_strategy(maxc, 1), 1 => resolved_first];
+    (base, prop::collection::vec(bm, 0..=maxmoves), prop::collection::vec(pm, 0..=maxmoves.min(3))).prop_map(|(base, bmoves, pmoves)| IsoSpec { base, bmoves, pmoves }).boxed()
+}
